@@ -100,7 +100,7 @@ def conname_of(c): return tuple(c) if isinstance(c, tuple) else tuple(b.name for
 
 
 def short(so):
-    return L(opt(val, so['frequency']) if 'frequency' in so else L(),
+    return L(L(val(so['frequency'])) if 'frequency' in so else L(),
              opt(lambda l: lst(lambda b: s(b.name), l), so.get('block')),
              opt(lambda l: lst(lambda c: L(s(c.block[0].name), s(c.block[1].name)), l), so.get('connection')),
              opt(lambda l: lst(lambda g: L(s(g.block), s(g.name)), l), so.get('generator')))
